@@ -129,6 +129,7 @@ pub struct Classes {
     pub audits: u32,
     pub nodes_released: u32,
     pub state_dropped_in_the_middle: u32,
+    pub siblings_cut_short: u32,
 }
 
 #[derive(Clone, Debug)]
@@ -572,7 +573,7 @@ impl<'p> Harness<'p> {
             return;
         }
         let Some(o) = self.first_clone(oi) else { return };
-        if self.obs[oi].no_more_subs {
+        if crate::choice::dv() < 2 && self.obs[oi].no_more_subs {
             return;
         }
         let sid = self.subs.len() as u32;
@@ -991,10 +992,21 @@ impl<'p> Harness<'p> {
 
     fn check_notifications(&mut self, r: Round, root_obs: &[usize], events: &[Event]) {
         let mut got: HashMap<u32, Vec<(Upd, Result<Val, String>, Vec<(u32, Result<Val, String>)>)>> = HashMap::new();
-        for e in events {
+        // position in the log of the first disallow_future_use issued by a handler, per observer
+        let mut dis_at: HashMap<u32, usize> = HashMap::new();
+        for (i, e) in events.iter().enumerate() {
             if let Event::Notify { sub, upd, self_read, reads } = e {
                 got.entry(*sub).or_default().push((upd.clone(), self_read.clone(), reads.clone()));
                 self.classes.notifications += 1;
+                if let Some(s) = self.subs.get(*sub as usize) {
+                    if let Some(d) = dis_at.get(&s.obs) {
+                        let m = format!("round {r}: subscription s{sub} on o{} was called back (log position {i}) after a handler had called disallow_future_use on that observer (log position {d})", s.obs);
+                        self.fail("C09", "callback-after-end", m);
+                    }
+                }
+            }
+            if let Event::HandlerDisallow { obs } = e {
+                dis_at.entry(*obs).or_insert(i);
             }
         }
         // what every observer must return once propagation is complete
@@ -1064,6 +1076,10 @@ impl<'p> Harness<'p> {
             }
             match (first, &required, &optional) {
                 (None, None, _) => {}
+                (None, Some(_), _) if dis_at.contains_key(&(oi as u32)) => {
+                    // a sibling handler disallowed the observer first: nothing may follow
+                    self.classes.siblings_cut_short += 1;
+                }
                 (None, Some(req), _) => {
                     self.fail("C09", "missing", format!("round {r}: subscription s{si} on o{oi} (#{t}) should have received {req:?}, got nothing"));
                     // keep the model in step with what the engine should have done
@@ -1464,7 +1480,9 @@ impl<'p> Harness<'p> {
                 acts.push(HAct::Write(vt, WRITE_OPS[ch.choose(5)], gen_value(ch)));
             }
         }
-        if ch.flag(1, 8) && self.obs[oi].n_subs == 0 {
+        // sibling subscriptions of the same observer may or may not run before this one (hash
+        // order): the oracle only forbids a callback *after* the disallow (log order)
+        if ch.flag(1, 8) && (crate::choice::dv() >= 2 || self.obs[oi].n_subs == 0) {
             acts.push(HAct::DisallowSelf);
         }
         acts
